@@ -433,6 +433,19 @@ func eachDERMutant(seed []byte, fn func(desc string, m []byte)) int {
 				}
 			}
 		}
+		// every OBJECT IDENTIFIER replaced by every identifier of a dictionary of the algorithm, curve, key-type, digest and
+		// content-type identifiers the library knows (ancestor lengths fixed up): an artefact whose parts disagree about
+		// the algorithm - a P-521 key labelled SM2-with-SM3, an RSA key under an ECDSA signature algorithm - is two or more
+		// byte substitutions away from any valid seed but one "relabelling" away in this alphabet
+		if n.Children == nil && len(n.Tag) == 1 && n.Tag[0] == 0x06 {
+			for _, o := range oidDict {
+				if string(o.enc) == string(n.Content) {
+					continue
+				}
+				rep[r.idx] = &DERNode{Tag: n.Tag, Content: o.enc}
+				emit(fmt.Sprintf("%s/oid=%s", id, o.dotted), serializeAll(roots))
+			}
+		}
 		// every content length of a primitive (ancestor lengths fixed up): all proper prefixes and all proper suffixes.
 		// A decoder that checks a fixed-layout blob with ">= k" instead of "== n", or slices before it has checked, is
 		// only reached by the lengths in between. For contents above 640 bytes the lengths 0..320 and n-320..n-1.
@@ -513,5 +526,69 @@ func FindMutant(seed []byte, o MutOpt, desc string) []byte {
 			out = append([]byte{}, m...)
 		}
 	})
+	return out
+}
+
+
+// ---- dictionary of object identifiers for the relabelling edits
+
+type oidEntry struct {
+	dotted string
+	enc    []byte
+}
+
+var oidDict = buildOIDDict([]string{
+	// ShangMi
+	"1.2.156.10197.1.301", "1.2.156.10197.1.301.1", "1.2.156.10197.1.301.3", "1.2.156.10197.1.501", "1.2.156.10197.1.401", "1.2.156.10197.1.401.2",
+	"1.2.156.10197.1.104", "1.2.156.10197.1.104.1", "1.2.156.10197.1.104.2", "1.2.156.10197.1.104.8", "1.2.156.10197.1.302", "1.2.156.10197.1.302.1", "1.2.156.10197.1.302.3",
+	"1.2.156.10197.6.1.4.2.1", "1.2.156.10197.6.1.4.2.2", "1.2.156.10197.6.1.4.2.3", "1.2.156.10197.6.1.4.2.4", "1.2.156.10197.6.1.4.2.5",
+	"1.2.156.10197.6.4.1.5.1", "1.2.156.10197.6.4.1.5.2",
+	// EC
+	"1.2.840.10045.2.1", "1.2.840.10045.3.1.7", "1.3.132.0.33", "1.3.132.0.34", "1.3.132.0.35",
+	"1.2.840.10045.4.1", "1.2.840.10045.4.3.2", "1.2.840.10045.4.3.3", "1.2.840.10045.4.3.4",
+	// RSA
+	"1.2.840.113549.1.1.1", "1.2.840.113549.1.1.5", "1.2.840.113549.1.1.10", "1.2.840.113549.1.1.11", "1.2.840.113549.1.1.12", "1.2.840.113549.1.1.13",
+	// Edwards / Montgomery
+	"1.3.101.110", "1.3.101.112",
+	// digests
+	"1.3.14.3.2.26", "2.16.840.1.101.3.4.2.1", "2.16.840.1.101.3.4.2.2", "2.16.840.1.101.3.4.2.3", "2.16.840.1.101.3.4.2.4",
+	// PKCS#7 content types and attributes
+	"1.2.840.113549.1.7.1", "1.2.840.113549.1.7.2", "1.2.840.113549.1.7.3", "1.2.840.113549.1.7.4", "1.2.840.113549.1.7.6",
+	"1.2.840.113549.1.9.3", "1.2.840.113549.1.9.4", "1.2.840.113549.1.9.5",
+	// PKCS#5 / content ciphers / PRFs
+	"1.2.840.113549.1.5.12", "1.2.840.113549.1.5.13", "1.2.840.113549.1.5.3", "1.2.840.113549.1.5.10", "1.3.6.1.4.1.11591.4.11",
+	"1.2.840.113549.3.7", "1.3.14.3.2.7", "2.16.840.1.101.3.4.1.2", "2.16.840.1.101.3.4.1.6", "2.16.840.1.101.3.4.1.42", "2.16.840.1.101.3.4.1.46",
+	"1.2.840.113549.2.7", "1.2.840.113549.2.9", "1.2.840.113549.2.11",
+})
+
+func buildOIDDict(dotted []string) []oidEntry {
+	var out []oidEntry
+	for _, d := range dotted {
+		var arcs []uint64
+		var cur uint64
+		for i := 0; i <= len(d); i++ {
+			if i == len(d) || d[i] == '.' {
+				arcs = append(arcs, cur)
+				cur = 0
+				continue
+			}
+			cur = cur*10 + uint64(d[i]-'0')
+		}
+		if len(arcs) < 2 {
+			continue
+		}
+		b128 := func(v uint64) []byte {
+			r := []byte{byte(v & 0x7f)}
+			for v >>= 7; v > 0; v >>= 7 {
+				r = append([]byte{byte(v&0x7f) | 0x80}, r...)
+			}
+			return r
+		}
+		enc := b128(arcs[0]*40 + arcs[1])
+		for _, a := range arcs[2:] {
+			enc = append(enc, b128(a)...)
+		}
+		out = append(out, oidEntry{d, enc})
+	}
 	return out
 }
